@@ -70,7 +70,12 @@ def makefile_var(name, default=None):
 class Build:
     """One build directory for one check run."""
 
-    def __init__(self, tag, hashes=None, extra_defs=None, failure_tokens=None):
+    def __init__(self, tag, hashes=None, extra_defs=None, failure_tokens=None, scale=None):
+        # scale=(ALG_SPECIFIC_SIZE, CRYPT_DATA_INTERNAL_SIZE): scaled-down data object for
+        # the API-level harnesses (see DESIGN.md: CBMC cannot convert byte updates on the
+        # 32 KB struct); the code is size-generic (sizeof), the scaled headers are
+        # regenerated from /repo's on every run.
+        self.scale = scale
         self.tag = tag
         self.dir = os.path.join(VERIF, "build", tag)
         shutil.rmtree(self.dir, ignore_errors=True)
@@ -113,6 +118,23 @@ class Build:
         gen("gen-crypt-h", [os.path.join(LIB, "crypt.h.in"), cfg,
                             os.path.join(LIB, "hashes.conf"), he], "crypt.h")
         gen("gen-crypt-h", [os.path.join(LIB, "xcrypt.h.in"), cfg], "xcrypt.h")
+        if self.scale:
+            alg, internal = self.scale
+            with open(os.path.join(self.gen, "crypt.h")) as f:
+                t = f.read()
+            t2 = re.sub(r"(#define CRYPT_DATA_INTERNAL_SIZE) \d+", r"\1 %d" % internal, t)
+            if t2 == t:
+                raise VerifError("scale: CRYPT_DATA_INTERNAL_SIZE not found in crypt.h")
+            with open(os.path.join(self.gen, "crypt.h"), "w") as f:
+                f.write(t2)
+            with open(os.path.join(LIB, "crypt-port.h")) as f:
+                t = f.read()
+            t2 = re.sub(r"(#define ALG_SPECIFIC_SIZE) \d+", r"\1 %d" % alg, t)
+            if t2 == t:
+                raise VerifError("scale: ALG_SPECIFIC_SIZE not found in crypt-port.h")
+            with open(os.path.join(self.gen, "crypt-port.h"), "w") as f:
+                f.write('#line 1 "%s"\n' % os.path.join(LIB, "crypt-port.h"))
+                f.write(t2)
 
     def cflags(self, defs=()):
         return (["-DHAVE_CONFIG_H", "-DIN_LIBCRYPT", "-D" + GUARD,
@@ -158,7 +180,7 @@ class Build:
         new = txt
         for rx, rep in self.FIXUPS:
             new = rx.sub(rep, new)
-        if new == txt:
+        if new == txt and not self.scale:
             return path
         d = os.path.join(self.dir, "fixup")
         os.makedirs(d, exist_ok=True)
@@ -215,7 +237,15 @@ class Build:
                 cur = None
         return res
 
+    def sub(self, suffix, **kw):
+        """A second build directory (other configuration) cleaned up with this one."""
+        b = Build(self.tag + "-" + suffix, **kw)
+        self.children = getattr(self, "children", []) + [b]
+        return b
+
     def cleanup(self):
+        for c in getattr(self, "children", []):
+            c.cleanup()
         shutil.rmtree(self.dir, ignore_errors=True)
 
 
@@ -312,6 +342,7 @@ def _limit(mem_gb):
 
 
 def run_query(build, q):
+    build = getattr(q, "build", None) or build
     r = Result(q)
     t0 = time.time()
     try:
@@ -324,6 +355,38 @@ def run_query(build, q):
         r.detail = "timeout after %ds" % q.timeout
     r.wall = time.time() - t0
     return r
+
+
+def _exec_cbmc(build, q, cmd, tag, timeout):
+    outf = os.path.join(build.dir, tag + ".out.json")
+    with open(outf, "w") as fo:
+        p = subprocess.Popen(["/usr/bin/time", "-f", "VFRSS %M", "-o", outf + ".rss"] + cmd,
+                             stdout=fo, stderr=subprocess.PIPE, text=True,
+                             preexec_fn=_limit(q.mem_gb))
+        try:
+            _, err = p.communicate(timeout=timeout)
+        except subprocess.TimeoutExpired:
+            try:
+                os.killpg(p.pid, 9)
+            except OSError:
+                pass
+            p.wait()
+            raise
+    rss = 0
+    try:
+        with open(outf + ".rss") as f:
+            m = re.search(r"VFRSS (\d+)", f.read())
+            rss = int(m.group(1)) // 1024 if m else 0
+    except OSError:
+        pass
+    try:
+        with open(outf) as f:
+            data = json.load(f)
+    except Exception as e:
+        raise VerifError("cbmc died (rc=%s; 139=segfault, 137/-9=killed or out of memory, rss %d MB): %s" % (
+            p.returncode, rss, (err or "")[-300:]))
+    p.vf_rss = rss
+    return data, p, err
 
 
 def _run_query(build, q, r):
@@ -356,7 +419,7 @@ def _run_query(build, q, r):
         freg, sreg, k, capped = spec
         hits = []
         for lid, (f, line, fn) in loops.items():
-            fname = lid.rsplit(".", 1)[0]
+            fname = re.sub(r"^__CPROVER_file_local_\w+?_c_", "", lid.rsplit(".", 1)[0])
             if re.search(freg, fname) and (sreg is None or re.search(sreg, src_line(f, line))):
                 hits.append(lid)
         if not hits:
@@ -390,37 +453,11 @@ def _run_query(build, q, r):
     if q.solver:
         cmd += q.solver
     cmd += q.flags
-    cmd += ["--json-ui", "--trace"]
+    base_cmd = list(cmd)
+    cmd = base_cmd + ["--json-ui"]
     r.cmd = " ".join(cmd)
-    t0 = time.time()
-    outf = os.path.join(build.dir, q.name + ".out.json")
-    with open(outf, "w") as fo:
-        p = subprocess.Popen(["/usr/bin/time", "-f", "VFRSS %M", "-o", outf + ".rss"] + cmd,
-                             stdout=fo, stderr=subprocess.PIPE, text=True,
-                             preexec_fn=_limit(q.mem_gb))
-        try:
-            _, err = p.communicate(timeout=q.timeout)
-        except subprocess.TimeoutExpired:
-            try:
-                os.killpg(p.pid, 9)
-            except OSError:
-                pass
-            p.wait()
-            raise
-    try:
-        with open(outf + ".rss") as f:
-            m = re.search(r"VFRSS (\d+)", f.read())
-            r.rss_mb = int(m.group(1)) // 1024 if m else 0
-    except OSError:
-        pass
-    try:
-        with open(outf) as f:
-            data = json.load(f)
-    except Exception as e:
-        with open(outf, errors="replace") as f:
-            txt = f.read()
-        raise VerifError("cbmc died (rc=%s; 139=segfault, 137=killed/out of memory): %s" % (
-            p.returncode, (err or "")[-300:]))
+    data, p, err = _exec_cbmc(build, q, cmd, q.name, q.timeout)
+    r.rss_mb = getattr(p, "vf_rss", 0)
     results = None
     msgs = []
     for item in data:
@@ -428,8 +465,6 @@ def _run_query(build, q, r):
             results = item["result"]
         if item.get("messageType") in ("ERROR",):
             msgs.append(item.get("messageText", ""))
-        if "cProverStatus" in item:
-            r.cprover_status = item["cProverStatus"]
     if results is None:
         raise VerifError("no result array in cbmc output: rc=%s %s | %s" % (
             p.returncode, "; ".join(msgs)[-300:], (err or "")[-200:]))
@@ -441,7 +476,7 @@ def _run_query(build, q, r):
         desc = pr.get("description", "")
         st = pr.get("status")
         is_unwind = ".unwind." in name
-        is_capped = is_unwind and any(name.startswith(c + ".") or name.rsplit(".unwind.", 1)[0] == c for c in capped_ids)
+        is_capped = is_unwind and name.replace(".unwind.", ".") in capped_ids
         is_wit = any(e.search(desc) for e in exp)
         if st == "SUCCESS":
             if is_capped:
@@ -476,6 +511,21 @@ def _run_query(build, q, r):
             r.failures.append(f)
             continue
         r.unknown = getattr(r, "unknown", 0) + 1
+    # counterexample: re-run for the first unexpected failure only, with --trace
+    # (building JSON traces for every reachability witness dominated the run time)
+    for f in (r.failures[:1] + ([{"property": r.unwind_fail[0], "_unwind": True}] if getattr(r, "unwind_fail", None) and not r.failures else [])):
+        try:
+            tdata, _, _ = _exec_cbmc(build, q, base_cmd + ["--property", f["property"], "--json-ui", "--trace"],
+                                     q.name + ".trace", min(q.timeout, 600))
+            for item in tdata:
+                for pr in item.get("result", []) if isinstance(item, dict) else []:
+                    if pr.get("property") == f["property"] and "trace" in pr:
+                        if f.get("_unwind"):
+                            r.unwind_inputs = extract_inputs(pr["trace"])
+                        else:
+                            f["inputs"] = extract_inputs(pr["trace"])
+        except (VerifError, subprocess.TimeoutExpired) as e:
+            f["inputs"] = {"_trace_error": str(e)[:200]}
     # witnesses declared in the harness (by scanning its text) must all have failed
     with open(hsrc) as f:
         htxt = f.read()
@@ -487,7 +537,9 @@ def _run_query(build, q, r):
             r.missing_witnesses.append(w)
     if not any(w.startswith("WITNESS") for w in present):
         raise VerifError("harness %s has no reachability witness" % q.name)
-    if getattr(r, "unwind_fail", None) and not r.failures:
+    if getattr(r, "unwind_fail", None):
+        # with --partial-loops a loop that exceeds its bound is left early and execution
+        # continues, so every other verdict of this run may be an artefact
         raise VerifError("unwinding bound too small (no verdict): " + ", ".join(r.unwind_fail[:6]) + " inputs=" + json.dumps(getattr(r, "unwind_inputs", {}))[:400])
     if getattr(r, "unknown", 0) and not r.failures and not getattr(r, "ub_suspect", None):
         raise VerifError("%d properties have status UNKNOWN without any failure" % r.unknown)
